@@ -25,6 +25,39 @@ Theorem C13_merged_imports_order_free :
   forall l l', Permutation l l' -> norm_imports l = norm_imports l'.
 Proof. exact norm_imports_perm. Qed.
 
+(* not only the order: a dependency may be visited any number of times (the generated
+   visit_dependencies() de-duplicates by Rust type, the import block by name); only the SET of
+   visited dependencies shows.  First-wins versus last-wins de-duplication cannot be observed. *)
+Theorem C13_imports_depend_on_the_set_only :
+  forall R esm cwd t out_dir deps deps',
+    name_functional deps -> (forall x, In x deps <-> In x deps') ->
+    import_groups R esm cwd t out_dir deps = import_groups R esm cwd t out_dir deps'.
+Proof. exact import_groups_set_free. Qed.
+
+(* the whole text of export_to_string::<T>(): whatever order and repetitions the generated
+   visit_dependencies() reports its dependencies in, the text is the one of the model's own order *)
+Theorem C13_export_string_visit_free :
+  forall iu ia inum R esm cwd fuel t dir deps deps',
+    dependencies_of R fuel (without_generics t) = Ok deps ->
+    name_functional deps -> (forall x, In x deps <-> In x deps') ->
+    export_string_with iu ia inum R esm cwd fuel t dir deps' = export_string iu ia inum R esm cwd fuel t dir.
+Proof. exact export_string_visit_free. Qed.
+
+(* non-vacuity: two visits of B and a different order give the same de-duplicated list *)
+Example C13_nonvacuous_set :
+  let a : rty * str * str := (RNamed (lit "A") [], lit "A", lit "a.ts") in
+  let b : rty * str * str := (RNamed (lit "B") [], lit "B", lit "b.ts") in
+  name_functional [a; b] /\ (forall x, In x [a; b] <-> In x [b; a; b]) /\
+  fold_left (fun m e => dep_insert e m) [b; a; b] [] = [a; b].
+Proof.
+  cbv zeta. split; [|split].
+  - intros x y [<-|[<-|[]]] [<-|[<-|[]]] H; try reflexivity; vm_compute in H; discriminate H.
+  - intros x; cbn [In]; tauto.
+  - vm_compute. reflexivity.
+Qed.
+
 Print Assumptions C13_imports_order_free.
 Print Assumptions C13_dedup_order_free.
 Print Assumptions C13_merged_imports_order_free.
+Print Assumptions C13_imports_depend_on_the_set_only.
+Print Assumptions C13_export_string_visit_free.
